@@ -260,9 +260,18 @@ class RF:
 
     def subst(self, mapping: Dict[tuple, "RF"]) -> "RF":
         """Replace atoms (with plain integer exponents) by rational functions."""
-        if not mapping or not (self.atoms() & set(mapping)):
+        if not mapping:
+            return self
+        nv = mapping.get(("n",))
+        if nv is not None and nv.is_const() and nv.const_value().denominator == 1 and self.has_sym_exp():
+            c = int(nv.const_value())
+            return RF(_fix_n(self.n, c), _fix_n(self.d, c)).subst(mapping)
+        if not (self.atoms() & set(mapping)):
             return self
         return _subst_poly(self.n, mapping) / _subst_poly(self.d, mapping)
+
+    def has_sym_exp(self):
+        return any(e[1] != 0 for p in (self.n, self.d) for m in p.t for _, e in m)
 
     def map_atoms(self, fn) -> "RF":
         """Apply fn(atom) -> RF or None (keep) to every atom."""
@@ -272,6 +281,22 @@ class RF:
             if r is not None:
                 mp[a] = r
         return self.subst(mp)
+
+
+def _fix_n(p: Poly, c: int) -> Poly:
+    out: Dict[Mono, Fraction] = {}
+    for m, coef in p.t.items():
+        mm = []
+        for a, (c0, c1) in m:
+            e = c0 + c1 * c
+            if a[0] == "const" and c1 != 0:
+                coef = coef * Fraction(a[1]) ** e
+                continue
+            if e != 0:
+                mm.append((a, (e, 0)))
+        mm = tuple(mm)
+        out[mm] = out.get(mm, 0) + coef
+    return Poly(out)
 
 
 def _subst_poly(p: Poly, mapping) -> RF:
